@@ -39,6 +39,7 @@ type c40Runner struct {
 	node  *cluster.Node
 	index uint64
 	rev   uint64
+	cap   int
 	err   error
 }
 
@@ -69,6 +70,7 @@ func newC40Runner() *c40Runner {
 		return r
 	}
 	r.rev = 1
+	r.cap = 4096
 	r.node, err = cluster.VerifNewMessageEventNode(c40HashSlots, 4096, r.propose)
 	if err != nil {
 		r.err = err
@@ -99,6 +101,8 @@ func c40Err(err error) string {
 		return "invalid"
 	case errors.Is(err, cluster.ErrMessageEventStreamCacheMiss):
 		return "cachemiss"
+	case errors.Is(err, cluster.ErrBackpressured):
+		return "backpressure"
 	}
 	return "other:" + strings.ReplaceAll(err.Error(), " ", "_")
 }
@@ -371,7 +375,18 @@ func (r *c40Runner) Step(op string) string {
 		if len(f) != 1 {
 			return "bad-op"
 		}
-		r.node.VerifLoseMessageEventStreamCache(4096)
+		r.node.VerifLoseMessageEventStreamCache(r.cap)
+		return "ok"
+	case "cap":
+		if len(f) != 2 {
+			return "bad-op"
+		}
+		c, err := strconv.ParseUint(f[1], 10, 32)
+		if err != nil || c == 0 || c > 100000 {
+			return "bad-op"
+		}
+		r.cap = int(c)
+		r.node.VerifSetMessageEventStreamCacheCapacity(r.cap)
 		return "ok"
 	case "rt":
 		if len(f) != 4 || len(f[3]) != c40HashSlots {
